@@ -117,6 +117,20 @@ func (h *Handler) findOrCreate(clientID []byte, mac net.HardwareAddr, name strin
 	return lease
 }
 
+// ipAvailable returns false if ip is leased to another client or if the session
+// tracks it for a mac other than the client's.
+func (h *Handler) ipAvailable(lease *Lease, ip netip.Addr) bool {
+	for _, l := range h.table {
+		if l != lease && l.State != StateFree && l.Addr.IP == ip {
+			return false
+		}
+	}
+	if host := h.session.FindIP(ip); host != nil && !bytes.Equal(host.MACEntry.MAC, lease.Addr.MAC) {
+		return false
+	}
+	return true
+}
+
 func (h *Handler) delete(lease *Lease) {
 	delete(h.table, string(lease.ClientID))
 }
